@@ -9,6 +9,9 @@ A layer around the LTS of `Model/C20.lean`. The core model has `post hup` / `pos
 * `Run` registers `signalsChannel` with `os/signal` only after the INITIAL `setupConfigurationComponents` succeeded:
   always for SIGHUP, for SIGINT/SIGTERM only `if !col.set.DisableGracefulShutdown`; `defer signal.Stop(col.signalsChannel)`
   unregisters when Run returns. The registrations are REGENERATED (`Gen.CollectorFsm.runNotify`, `signalStopDeferred`).
+  The registration is a step of its own (`SLabel.register`), executed by the Run goroutine AFTER `setupConfigurationComponents`
+  has stored StateRunning and BEFORE it enters the select for the first time: there is a window in which `GetState()` already
+  says Running and no signal reaches the collector yet (hit for real by the harness on a loaded machine).
 * `os/signal` hands a signal to a registered channel with a NON-BLOCKING send: the channel has the regenerated capacity
   (`Gen.CollectorFsm.chanCaps`, 3), a signal arriving while it is full is dropped; a signal the channel is not registered
   for never reaches the collector (what the process then does is the embedding program's business).
@@ -53,6 +56,8 @@ structure SS where
   core : S := {}
   /-- `CollectorSettings.DisableGracefulShutdown` -/
   dg : Bool := false
+  /-- Run has executed its `signal.Notify` calls (they follow the initial set-up and precede the first select) -/
+  regDone : Bool := false
   /-- signals `signalsChannel` is currently registered for -/
   notified : List Sig := []
   /-- content of `signalsChannel`, oldest first -/
@@ -65,14 +70,13 @@ structure SS where
 
 inductive SLabel
   | os (sg : Sig)          -- the operating system delivers a signal to the process
+  | register               -- the Run goroutine executes `signal.Notify(...)` / `defer signal.Stop` (between set-up and first select)
   | core (l : Label)       -- any label of the run-loop LTS except the direct `post hup/term`
   deriving DecidableEq, Repr
 
-/-- registrations after a transition of the run loop from `ss.core` to `c` -/
+/-- registrations after a transition of the run loop from `ss.core` to `c`: Run's return runs the deferred `signal.Stop` -/
 def regAfter (ss : SS) (c : S) : List Sig :=
-  if c.pc = .done then (if Gen.CollectorFsm.signalStopDeferred then [] else ss.notified)   -- `defer signal.Stop`
-  else if ss.core.pc = .setup4 false ∧ c.pc = .select then notifySet ss.dg                  -- after the initial set-up
-  else ss.notified
+  if c.pc = .done then (if Gen.CollectorFsm.signalStopDeferred then [] else ss.notified) else ss.notified
 
 def SS.upd (ss : SS) (c : S) : SS := { ss with core := c, notified := regAfter ss c }
 
@@ -82,14 +86,20 @@ branch receives the OLDEST signal: `pick hup` needs SIGHUP at the head, `pick te
 def sigGuard (ss : SS) : Label → Option (List Sig)
   | .post .hup => none
   | .post .term => none
-  | .pick .hup =>
-    match ss.q with
-    | .hup :: rest => some rest
-    | _ => none
-  | .pick .term =>
-    match ss.q with
-    | sg :: rest => if sg ≠ .hup then some rest else none
-    | [] => none
+  | .pick e =>
+    -- before the registration step the Run goroutine is not in the select yet
+    if ss.regDone then
+      match e with
+      | .hup =>
+        match ss.q with
+        | .hup :: rest => some rest
+        | _ => none
+      | .term =>
+        match ss.q with
+        | sg :: rest => if sg ≠ .hup then some rest else none
+        | [] => none
+      | _ => some ss.q
+    else none
   | _ => some ss.q
 
 def fireS (ss : SS) : SLabel → Option SS
@@ -99,6 +109,8 @@ def fireS (ss : SS) : SLabel → Option SS
         (fire .fixed ss.core (.post sg.ev)).map fun c => { ss with core := c, q := ss.q ++ [sg] }
       else some { ss with dropped := ss.dropped + 1 }
     else some { ss with ignored := ss.ignored + 1 }
+  | .register =>
+    if ss.core.pc = .select ∧ ss.regDone = false then some { ss with regDone := true, notified := notifySet ss.dg } else none
   | .core l =>
     (sigGuard ss l).bind fun q' => (fire .fixed ss.core l).map fun c => { ss.upd c with q := q' }
 
